@@ -12,6 +12,7 @@ TRANSLATORS: dict[str, str] = {
     "GenSkeleton": "skeleton",
     "GenLadder": "ladder",
     "GenData": "data",
+    "GenFields": "fields",
     "GenLocales": "locales",
 }
 
